@@ -69,6 +69,8 @@ type Contract struct {
 	Locals      map[string]string
 	Ghosts      []string
 	Props       []string
+	SkipFrame   string
+	SkipPanics  string // "unchecked no-panic <reason>": run-time panic obligations of this function are assumed, not proved (listed)
 }
 
 type SpecParam struct{ Name, Type string }
@@ -141,7 +143,7 @@ var itemKeywords = map[string]bool{"spec": true, "lemma": true, "axiom": true, "
 
 var clauseKeywords = map[string]bool{"mode": true, "instances": true, "requires": true, "ensures": true, "modifies": true,
 	"pure": true, "trusted": true, "holds": true, "acquires": true, "releases": true, "decreases": true, "case": true, "use": true,
-	"local": true, "overflow": true, "known": true, "noinline": true, "inline": true, "hint": true, "prop": true}
+	"local": true, "overflow": true, "known": true, "noinline": true, "inline": true, "hint": true, "prop": true, "unchecked": true}
 
 func firstWord(s string) string {
 	s = strings.TrimSpace(s)
@@ -370,6 +372,22 @@ func ParseContractText(data, path, pkg string) (*ContractFile, error) {
 			}
 		case w == "prop":
 			cur.Props = append(cur.Props, strings.Fields(rest)...)
+		case w == "unchecked":
+			f := strings.SplitN(rest, " ", 2)
+			reason := "no reason given"
+			if len(f) == 2 {
+				reason = strings.TrimSpace(f[1])
+			}
+			for _, k := range strings.Split(f[0], ",") {
+				switch k {
+				case "no-panic":
+					cur.SkipPanics = reason
+				case "frame":
+					cur.SkipFrame = reason
+				default:
+					return nil, fail("unchecked: unknown obligation kind %q (no-panic, frame)", k)
+				}
+			}
 		case w == "pure":
 			cur.Pure = true
 		case w == "trusted":
